@@ -152,7 +152,7 @@ impl Engine for PoolEngine {
             let target = if clean { 0 } else { [1, size.saturating_sub(1).max(1), size, size + 1 + rng.below(3) as usize][rng.below(4) as usize] };
             for j in 0..nops {
                 let remaining = nops - j;
-                let mut pick = |rng: &mut Rng, panics: &mut usize| -> &'static str {
+                let pick = |rng: &mut Rng, panics: &mut usize| -> &'static str {
                     if clean {
                         return k2[rng.below(2) as usize];
                     }
